@@ -1,7 +1,433 @@
-import XlModel.Lemmas.FormulaRef2
-namespace XlModel.Props.C07
-open XlModel XlModel.FormulaRef
+/-
+C07 — formula references keep denoting the same cells across structural edits.
 
-theorem placeholder : True := trivial
+Property theorems about `XlModel.FormulaRef` (transcription of adjust.go's
+`adjustFormulaRef` / `adjustFormulaOperand` / `adjustFormulaColumnName` /
+`adjustFormulaRowNumber` / `escapeSheetName`). Every theorem quantifies over all
+references (all 16384 columns, all rows, every `$` combination), all edits and
+all token lists.
+-/
+import XlModel.Lemmas.FormulaRef2
+
+namespace XlModel.Props.C07
+open XlModel XlModel.Ref XlModel.FormulaRef
+
+/-! ## Facts: the guards of the Go functions the model transcribes -/
+
+/-- Tie: the guard skeleton regenerated from adjust.go is the one `Impl` transcribes
+(comparison operators, character classes, branch order, floor/limit constants). -/
+theorem facts_guards :
+    Facts.C07.guardsColumnName =
+      ["name==\"\"||(!abs&&keepRelative)", "_!=nil", "dir==columns&&_>=num", "_+=offset;_<1"] ∧
+    Facts.C07.guardsRowNumber =
+      ["name==\"\"||(!abs&&keepRelative)", "dir==rows&&_>=num", "_+=offset;_<1", "_>TotalRows"] ∧
+    Facts.C07.guardsOperandRef = ["_!=nil"] ∧
+    Facts.C07.guardsOperand =
+      ["len(_)==2", "sheetName==\"\"", "sheet!=sheetName", "_==36",
+       "_,_,_,_=adjustFormulaColumnName(_,_,abs,keepRelative,dir,num,offset);_!=nil",
+       "(65<=_&&_<=90)||(97<=_&&_<=122)", "48<=_&&_<=57", "_!=nil",
+       "_,_,_,abs,_=adjustFormulaOperandRef(_,_,_,abs,keepRelative,dir,num,offset);_!=nil"] ∧
+    Facts.C07.guardsRef =
+      ["_.Scope==\"Workbook\"||_.Scope==sheet", "_.TType==efp.TokenTypeUnknown",
+       "_.TType==efp.TokenTypeOperand&&_.TSubType==efp.TokenSubTypeRange",
+       "inStrSlice(_,_.TValue,true)!=-1", "strings.ContainsAny(_.TValue,\"[]\")", "_!=nil",
+       "_:=transformParenthesesToken(_);_!=\"\"",
+       "_.TType==efp.TokenTypeOperand&&_.TSubType==efp.TokenSubTypeText",
+       "_.TType==efp.TokenTypeOperatorInfix&&_.TSubType==efp.TokenSubTypeIntersection"] ∧
+    Facts.C07.guardsParen =
+      ["isFunctionStartToken(_)||isBeginParenthesesToken(_)", "isFunctionStopToken(_)||isEndParenthesesToken(_)"] ∧
+    Facts.C07.guardsEscape =
+      ["strings.IndexFunc(name,func{!unicode.IsLetter(_)&&!unicode.IsNumber(_)})!=-1"] := by
+  decide
+
+/-- Tie: literal constants of the rewriter (character classes, separator, floors, quotes). -/
+theorem facts_constants :
+    Facts.C07.dollar = 36 ∧ Facts.C07.upperLo = 65 ∧ Facts.C07.upperHi = 90 ∧ Facts.C07.lowerLo = 97 ∧
+    Facts.C07.lowerHi = 122 ∧ Facts.C07.digitLo = 48 ∧ Facts.C07.digitHi = 57 ∧ Facts.C07.sheetSep = 33 ∧
+    Facts.C07.sheetParts = 2 ∧ Facts.C07.colFloor = 1 ∧ Facts.C07.colFloorSet = 1 ∧ Facts.C07.rowFloor = 1 ∧
+    Facts.C07.rowFloorSet = 1 ∧ Facts.C07.textQuote = 34 ∧ Facts.C07.sheetQuote = 39 ∧
+    Facts.MaxColumns = 16384 ∧ Facts.TotalRows = 1048576 := by
+  decide
+
+/-! ## The operand automaton rewrites every reference of the grammar to its relocation -/
+
+/-- **operand_rewrite_correct** — clause "every formula is rewritten so that each reference still
+denotes the same cells at their new position", at the level of one reference: for EVERY reference
+of the grammar (cell, range, whole columns, whole rows; all columns `A..XFD`, all rows, every `$`
+combination), every edit (rows or columns, insert or delete, any position and count) and both
+`keepRelative` modes, if no (moving) endpoint lies in a deleted row/column and the relocated
+reference stays in the grid, `adjustFormulaOperand`'s character automaton turns the rendered
+reference into exactly the rendering of `Spec.shiftRef` (appended to the sheet prefix `op0`). -/
+theorem operand_rewrite_correct (kr : Bool) (e : Edit) (r r' : Spec.Ref) (op0 : Str)
+    (hg : Spec.inGrid r) (hs : Spec.shiftRef kr e r = some r') (hg' : Spec.inGrid r') :
+    Impl.adjustCell kr e op0 (Spec.render r) = .ok (op0 ++ Spec.render r') := by
+  cases r with
+  | cell c ro =>
+    simp only [Spec.shiftRef] at hs
+    cases hc : Spec.shiftCol kr e c with
+    | none => simp [hc] at hs
+    | some c' =>
+      cases hr : Spec.shiftRow kr e ro with
+      | none => simp [hc, hr] at hs
+      | some ro' =>
+        simp only [hc, hr, Option.some.injEq] at hs
+        subst hs
+        obtain ⟨g1, g2⟩ := hg
+        obtain ⟨g1', g2'⟩ := hg'
+        exact adjustCell_single kr e op0 _ _ (runEnd_cell kr e c c' ro ro' op0 g1 hc g1' g2 hr g2')
+  | range c1 r1 c2 r2 =>
+    simp only [Spec.shiftRef] at hs
+    cases h1 : Spec.shiftCol kr e c1 with
+    | none => simp [h1] at hs
+    | some c1' =>
+      cases h2 : Spec.shiftRow kr e r1 with
+      | none => simp [h1, h2] at hs
+      | some r1' =>
+        cases h3 : Spec.shiftCol kr e c2 with
+        | none => simp [h1, h2, h3] at hs
+        | some c2' =>
+          cases h4 : Spec.shiftRow kr e r2 with
+          | none => simp [h1, h2, h3, h4] at hs
+          | some r2' =>
+            simp only [h1, h2, h3, h4, Option.some.injEq] at hs
+            subst hs
+            obtain ⟨g1, g2, g3, g4⟩ := hg
+            obtain ⟨g1', g2', g3', g4'⟩ := hg'
+            have hX := runEnd_cell kr e c1 c1' r1 r1' op0 g1 h1 g1' g2 h2 g2'
+            have hY := runEnd_cell kr e c2 c2' r2 r2' (op0 ++ (Spec.renderCol c1' ++ Spec.renderRow r1') ++ [':'])
+              g3 h3 g3' g4 h4 g4'
+            have := adjustCell_range kr e op0 _ _ _ _ hX hY
+            simpa [Spec.render, List.append_assoc] using this
+  | cols c1 c2 =>
+    simp only [Spec.shiftRef] at hs
+    cases h1 : Spec.shiftCol kr e c1 with
+    | none => simp [h1] at hs
+    | some c1' =>
+      cases h3 : Spec.shiftCol kr e c2 with
+      | none => simp [h1, h3] at hs
+      | some c2' =>
+        simp only [h1, h3, Option.some.injEq] at hs
+        subst hs
+        obtain ⟨g1, g3⟩ := hg
+        obtain ⟨g1', g3'⟩ := hg'
+        have hX := runEnd_col kr e c1 c1' op0 g1 h1 g1'
+        have hY := runEnd_col kr e c2 c2' (op0 ++ Spec.renderCol c1' ++ [':']) g3 h3 g3'
+        have := adjustCell_range kr e op0 _ _ _ _ hX hY
+        simpa [Spec.render, List.append_assoc] using this
+  | rows r1 r2 =>
+    simp only [Spec.shiftRef] at hs
+    cases h2 : Spec.shiftRow kr e r1 with
+    | none => simp [h2] at hs
+    | some r1' =>
+      cases h4 : Spec.shiftRow kr e r2 with
+      | none => simp [h2, h4] at hs
+      | some r2' =>
+        simp only [h2, h4, Option.some.injEq] at hs
+        subst hs
+        obtain ⟨g2, g4⟩ := hg
+        obtain ⟨g2', g4'⟩ := hg'
+        have hX := runEnd_row kr e r1 r1' op0 g2 h2 g2'
+        have hY := runEnd_row kr e r2 r2' (op0 ++ Spec.renderRow r1' ++ [':']) g4 h4 g4'
+        have := adjustCell_range kr e op0 _ _ _ _ hX hY
+        simpa [Spec.render, List.append_assoc] using this
+
+/-! ## Markers are preserved -/
+
+/-- **markers_preserved** — clause "absolute/relative markers are preserved": relocation never
+changes a `$` flag nor the shape of the reference. -/
+theorem markers_preserved (kr : Bool) (e : Edit) (r r' : Spec.Ref) (hs : Spec.shiftRef kr e r = some r') :
+    match r, r' with
+    | .cell c ro, .cell c' ro' => c'.abs = c.abs ∧ ro'.abs = ro.abs
+    | .range c1 r1 c2 r2, .range c1' r1' c2' r2' =>
+        c1'.abs = c1.abs ∧ r1'.abs = r1.abs ∧ c2'.abs = c2.abs ∧ r2'.abs = r2.abs
+    | .cols c1 c2, .cols c1' c2' => c1'.abs = c1.abs ∧ c2'.abs = c2.abs
+    | .rows r1 r2, .rows r1' r2' => r1'.abs = r1.abs ∧ r2'.abs = r2.abs
+    | _, _ => False := by
+  cases r with
+  | cell c ro =>
+    simp only [Spec.shiftRef] at hs
+    cases hc : Spec.shiftCol kr e c with
+    | none => simp [hc] at hs
+    | some c' =>
+      cases hr : Spec.shiftRow kr e ro with
+      | none => simp [hc, hr] at hs
+      | some ro' =>
+        simp only [hc, hr, Option.some.injEq] at hs
+        subst hs
+        exact ⟨shiftCol_abs kr e hc, shiftRow_abs kr e hr⟩
+  | range c1 r1 c2 r2 =>
+    simp only [Spec.shiftRef] at hs
+    cases h1 : Spec.shiftCol kr e c1 with
+    | none => simp [h1] at hs
+    | some c1' =>
+      cases h2 : Spec.shiftRow kr e r1 with
+      | none => simp [h1, h2] at hs
+      | some r1' =>
+        cases h3 : Spec.shiftCol kr e c2 with
+        | none => simp [h1, h2, h3] at hs
+        | some c2' =>
+          cases h4 : Spec.shiftRow kr e r2 with
+          | none => simp [h1, h2, h3, h4] at hs
+          | some r2' =>
+            simp only [h1, h2, h3, h4, Option.some.injEq] at hs
+            subst hs
+            exact ⟨shiftCol_abs kr e h1, shiftRow_abs kr e h2, shiftCol_abs kr e h3, shiftRow_abs kr e h4⟩
+  | cols c1 c2 =>
+    simp only [Spec.shiftRef] at hs
+    cases h1 : Spec.shiftCol kr e c1 with
+    | none => simp [h1] at hs
+    | some c1' =>
+      cases h3 : Spec.shiftCol kr e c2 with
+      | none => simp [h1, h3] at hs
+      | some c2' =>
+        simp only [h1, h3, Option.some.injEq] at hs
+        subst hs
+        exact ⟨shiftCol_abs kr e h1, shiftCol_abs kr e h3⟩
+  | rows r1 r2 =>
+    simp only [Spec.shiftRef] at hs
+    cases h2 : Spec.shiftRow kr e r1 with
+    | none => simp [h2] at hs
+    | some r1' =>
+      cases h4 : Spec.shiftRow kr e r2 with
+      | none => simp [h2, h4] at hs
+      | some r2' =>
+        simp only [h2, h4, Option.some.injEq] at hs
+        subst hs
+        exact ⟨shiftRow_abs kr e h2, shiftRow_abs kr e h4⟩
+
+/-- the rendered text carries exactly one `$` per absolute coordinate, in front of it: the
+rewritten operand of a cell reference is `$?COL'$?ROW'` with the original flags (corollary of
+`operand_rewrite_correct` and `markers_preserved`, spelled out for the cell shape). -/
+theorem cell_markers_in_text (kr : Bool) (e : Edit) (c c' : Spec.ColEnd) (ro ro' : Spec.RowEnd)
+    (hg : Spec.inGrid (.cell c ro)) (hs : Spec.shiftRef kr e (.cell c ro) = some (.cell c' ro'))
+    (hg' : Spec.inGrid (.cell c' ro')) :
+    Impl.adjustCell kr e [] (Spec.render (.cell c ro)) =
+      .ok (Spec.dollarIf c.abs ++ numToName c'.n ++ (Spec.dollarIf ro.abs ++ itoa ro'.n)) := by
+  have h := operand_rewrite_correct kr e _ _ [] hg hs hg'
+  have m := markers_preserved kr e _ _ hs
+  simp only at m
+  rw [h]
+  simp [Spec.render, Spec.renderCol, Spec.renderRow, m.1, m.2]
+
+/-! ## Same cells: the denotation of the relocated reference -/
+
+def posOk (p : Nat × Nat) : Prop :=
+  1 ≤ p.1 ∧ p.1 ≤ Facts.MaxColumns ∧ 1 ≤ p.2 ∧ p.2 ≤ Facts.TotalRows
+
+/-- relocation of indices is strictly monotone on the surviving indices -/
+theorem shiftIdx_mono {num off : Int} (hn : 0 ≤ num) {a b a' b' : Nat}
+    (ha : Spec.shiftIdx num off a = some a') (hb : Spec.shiftIdx num off b = some b') :
+    (a ≤ b ↔ a' ≤ b') := by
+  unfold Spec.shiftIdx at ha hb
+  split at ha <;> split at hb
+  all_goals (try split at ha) <;> (try split at hb) <;> (try split at ha) <;> (try split at hb)
+  all_goals simp only [Option.some.injEq, reduceCtorEq] at ha hb
+  all_goals omega
+
+theorem between_shift {a b x a' b' x' : Nat}
+    (h1 : a ≤ b ↔ a' ≤ b') (h2 : b ≤ a ↔ b' ≤ a') (h3 : a ≤ x ↔ a' ≤ x') (h4 : x ≤ a ↔ x' ≤ a')
+    (h5 : b ≤ x ↔ b' ≤ x') (h6 : x ≤ b ↔ x' ≤ b') :
+    (min a' b' ≤ x' ∧ x' ≤ max a' b') ↔ (min a b ≤ x ∧ x ≤ max a b) := by
+  simp only [Nat.min_def, Nat.max_def]
+  split <;> split <;> omega
+
+theorem between_of_shift {num off : Int} (hn : 0 ≤ num) {a b x a' b' x' : Nat}
+    (ha : Spec.shiftIdx num off a = some a') (hb : Spec.shiftIdx num off b = some b')
+    (hx : Spec.shiftIdx num off x = some x') :
+    (min a' b' ≤ x' ∧ x' ≤ max a' b') ↔ (min a b ≤ x ∧ x ≤ max a b) :=
+  between_shift (shiftIdx_mono hn ha hb) (shiftIdx_mono hn hb ha) (shiftIdx_mono hn ha hx)
+    (shiftIdx_mono hn hx ha) (shiftIdx_mono hn hb hx) (shiftIdx_mono hn hx hb)
+
+theorem eq_of_shift {num off : Int} (hn : 0 ≤ num) {a x a' x' : Nat}
+    (ha : Spec.shiftIdx num off a = some a') (hx : Spec.shiftIdx num off x = some x') :
+    (x' = a' ↔ x = a) := by
+  have h1 := shiftIdx_mono hn ha hx
+  have h2 := shiftIdx_mono hn hx ha
+  omega
+
+theorem shiftCol_cols {e : Edit} (hd : e.dir = .cols) {c c' : Spec.ColEnd}
+    (h : Spec.shiftCol false e c = some c') : Spec.shiftIdx e.num e.off c.n = some c'.n := by
+  unfold Spec.shiftCol Spec.moves at h
+  simp only [hd, Bool.not_false, Bool.or_true, and_self, if_true] at h
+  cases hx : Spec.shiftIdx e.num e.off c.n with
+  | none => simp [hx] at h
+  | some j => simp [hx] at h; rw [← h]
+
+theorem shiftCol_rows {e : Edit} (hd : e.dir = .rows) {c c' : Spec.ColEnd}
+    (h : Spec.shiftCol false e c = some c') : c' = c := by
+  unfold Spec.shiftCol at h
+  simp [hd] at h
+  exact h.symm
+
+theorem shiftRow_rows {e : Edit} (hd : e.dir = .rows) {r r' : Spec.RowEnd}
+    (h : Spec.shiftRow false e r = some r') : Spec.shiftIdx e.num e.off r.n = some r'.n := by
+  unfold Spec.shiftRow Spec.moves at h
+  simp only [hd, Bool.not_false, Bool.or_true, and_self, if_true] at h
+  cases hx : Spec.shiftIdx e.num e.off r.n with
+  | none => simp [hx] at h
+  | some j => simp [hx] at h; rw [← h]
+
+theorem shiftRow_cols {e : Edit} (hd : e.dir = .cols) {r r' : Spec.RowEnd}
+    (h : Spec.shiftRow false e r = some r') : r' = r := by
+  unfold Spec.shiftRow at h
+  simp [hd] at h
+  exact h.symm
+
+/-- **denote_shift** — the semantic clause "each reference still denotes the same cells at their
+new position": for every reference none of whose endpoints is deleted, and every surviving grid
+cell `p` that the edit moves to `p'`, the relocated reference denotes `p'` iff the original
+denoted `p`. (Cells of inserted rows/columns have no pre-image; they are blank.) -/
+theorem denote_shift (e : Edit) (hn : 0 ≤ e.num) (r r' : Spec.Ref) (p p' : Nat × Nat)
+    (hs : Spec.shiftRef false e r = some r') (hp : Spec.shiftPos e p = some p')
+    (hok : posOk p) (hok' : posOk p') :
+    Spec.denote r' p' ↔ Spec.denote r p := by
+  obtain ⟨px, py⟩ := p
+  obtain ⟨px', py'⟩ := p'
+  obtain ⟨o1, o2, o3, o4⟩ := hok
+  obtain ⟨o1', o2', o3', o4'⟩ := hok'
+  simp only at o1 o2 o3 o4 o1' o2' o3' o4'
+  cases hd : e.dir with
+  | cols =>
+    have hpx : Spec.shiftIdx e.num e.off px = some px' ∧ py' = py := by
+      unfold Spec.shiftPos at hp
+      simp only [hd] at hp
+      cases hx : Spec.shiftIdx e.num e.off px with
+      | none => simp [hx] at hp
+      | some j => simp [hx] at hp; exact ⟨by rw [hp.1], hp.2.symm⟩
+    obtain ⟨hpx, rfl⟩ := hpx
+    cases r with
+    | cell c ro =>
+      simp only [Spec.shiftRef] at hs
+      cases hc : Spec.shiftCol false e c with
+      | none => simp [hc] at hs
+      | some c' =>
+        cases hr : Spec.shiftRow false e ro with
+        | none => simp [hc, hr] at hs
+        | some ro' =>
+          simp only [hc, hr, Option.some.injEq] at hs
+          subst hs
+          have := eq_of_shift hn (shiftCol_cols hd hc) hpx
+          simp only [Spec.denote, shiftRow_cols hd hr, this]
+    | range c1 r1 c2 r2 =>
+      simp only [Spec.shiftRef] at hs
+      cases h1 : Spec.shiftCol false e c1 with
+      | none => simp [h1] at hs
+      | some c1' =>
+        cases h2 : Spec.shiftRow false e r1 with
+        | none => simp [h1, h2] at hs
+        | some r1' =>
+          cases h3 : Spec.shiftCol false e c2 with
+          | none => simp [h1, h2, h3] at hs
+          | some c2' =>
+            cases h4 : Spec.shiftRow false e r2 with
+            | none => simp [h1, h2, h3, h4] at hs
+            | some r2' =>
+              simp only [h1, h2, h3, h4, Option.some.injEq] at hs
+              subst hs
+              have := between_of_shift hn (shiftCol_cols hd h1) (shiftCol_cols hd h3) hpx
+              simp only [Spec.denote, shiftRow_cols hd h2, shiftRow_cols hd h4]
+              constructor
+              · intro ⟨a, b, c, d⟩; have := this.mp ⟨a, b⟩; exact ⟨this.1, this.2, c, d⟩
+              · intro ⟨a, b, c, d⟩; have := this.mpr ⟨a, b⟩; exact ⟨this.1, this.2, c, d⟩
+    | cols c1 c2 =>
+      simp only [Spec.shiftRef] at hs
+      cases h1 : Spec.shiftCol false e c1 with
+      | none => simp [h1] at hs
+      | some c1' =>
+        cases h3 : Spec.shiftCol false e c2 with
+        | none => simp [h1, h3] at hs
+        | some c2' =>
+          simp only [h1, h3, Option.some.injEq] at hs
+          subst hs
+          have := between_of_shift hn (shiftCol_cols hd h1) (shiftCol_cols hd h3) hpx
+          simp only [Spec.denote]
+          constructor
+          · intro ⟨a, b, c, d⟩; have := this.mp ⟨a, b⟩; exact ⟨this.1, this.2, c, d⟩
+          · intro ⟨a, b, c, d⟩; have := this.mpr ⟨a, b⟩; exact ⟨this.1, this.2, c, d⟩
+    | rows r1 r2 =>
+      simp only [Spec.shiftRef] at hs
+      cases h2 : Spec.shiftRow false e r1 with
+      | none => simp [h2] at hs
+      | some r1' =>
+        cases h4 : Spec.shiftRow false e r2 with
+        | none => simp [h2, h4] at hs
+        | some r2' =>
+          simp only [h2, h4, Option.some.injEq] at hs
+          subst hs
+          simp only [Spec.denote, shiftRow_cols hd h2, shiftRow_cols hd h4]
+          constructor
+          · intro ⟨a, b, _, _⟩; exact ⟨a, b, o1, o2⟩
+          · intro ⟨a, b, _, _⟩; exact ⟨a, b, o1', o2'⟩
+  | rows =>
+    have hpy : Spec.shiftIdx e.num e.off py = some py' ∧ px' = px := by
+      unfold Spec.shiftPos at hp
+      simp only [hd] at hp
+      cases hx : Spec.shiftIdx e.num e.off py with
+      | none => simp [hx] at hp
+      | some j => simp [hx] at hp; exact ⟨by rw [hp.2], hp.1.symm⟩
+    obtain ⟨hpy, rfl⟩ := hpy
+    cases r with
+    | cell c ro =>
+      simp only [Spec.shiftRef] at hs
+      cases hc : Spec.shiftCol false e c with
+      | none => simp [hc] at hs
+      | some c' =>
+        cases hr : Spec.shiftRow false e ro with
+        | none => simp [hc, hr] at hs
+        | some ro' =>
+          simp only [hc, hr, Option.some.injEq] at hs
+          subst hs
+          have := eq_of_shift hn (shiftRow_rows hd hr) hpy
+          simp only [Spec.denote, shiftCol_rows hd hc, this]
+    | range c1 r1 c2 r2 =>
+      simp only [Spec.shiftRef] at hs
+      cases h1 : Spec.shiftCol false e c1 with
+      | none => simp [h1] at hs
+      | some c1' =>
+        cases h2 : Spec.shiftRow false e r1 with
+        | none => simp [h1, h2] at hs
+        | some r1' =>
+          cases h3 : Spec.shiftCol false e c2 with
+          | none => simp [h1, h2, h3] at hs
+          | some c2' =>
+            cases h4 : Spec.shiftRow false e r2 with
+            | none => simp [h1, h2, h3, h4] at hs
+            | some r2' =>
+              simp only [h1, h2, h3, h4, Option.some.injEq] at hs
+              subst hs
+              have := between_of_shift hn (shiftRow_rows hd h2) (shiftRow_rows hd h4) hpy
+              simp only [Spec.denote, shiftCol_rows hd h1, shiftCol_rows hd h3]
+              constructor
+              · intro ⟨a, b, c, d⟩; have := this.mp ⟨c, d⟩; exact ⟨a, b, this.1, this.2⟩
+              · intro ⟨a, b, c, d⟩; have := this.mpr ⟨c, d⟩; exact ⟨a, b, this.1, this.2⟩
+    | cols c1 c2 =>
+      simp only [Spec.shiftRef] at hs
+      cases h1 : Spec.shiftCol false e c1 with
+      | none => simp [h1] at hs
+      | some c1' =>
+        cases h3 : Spec.shiftCol false e c2 with
+        | none => simp [h1, h3] at hs
+        | some c2' =>
+          simp only [h1, h3, Option.some.injEq] at hs
+          subst hs
+          simp only [Spec.denote, shiftCol_rows hd h1, shiftCol_rows hd h3]
+          constructor
+          · intro ⟨a, b, _, _⟩; exact ⟨a, b, o3, o4⟩
+          · intro ⟨a, b, _, _⟩; exact ⟨a, b, o3', o4'⟩
+    | rows r1 r2 =>
+      simp only [Spec.shiftRef] at hs
+      cases h2 : Spec.shiftRow false e r1 with
+      | none => simp [h2] at hs
+      | some r1' =>
+        cases h4 : Spec.shiftRow false e r2 with
+        | none => simp [h2, h4] at hs
+        | some r2' =>
+          simp only [h2, h4, Option.some.injEq] at hs
+          subst hs
+          have := between_of_shift hn (shiftRow_rows hd h2) (shiftRow_rows hd h4) hpy
+          simp only [Spec.denote]
+          constructor
+          · intro ⟨a, b, c, d⟩; have := this.mp ⟨a, b⟩; exact ⟨this.1, this.2, c, d⟩
+          · intro ⟨a, b, c, d⟩; have := this.mpr ⟨a, b⟩; exact ⟨this.1, this.2, c, d⟩
 
 end XlModel.Props.C07
